@@ -1075,7 +1075,7 @@ class StructOf(DataType):
 
     def export_value(self, value):
         """returns a python object fit for serialisation"""
-        self.check_type(value)
+        self.check_type(value, True)  # a validated value may lack optional members
         return dict((str(k), self.members[k].export_value(v))
                     for k, v in list(value.items()))
 
